@@ -1023,4 +1023,53 @@ theorem WInv.step {s s' : St} {e : Event} (h : WInv s) (hq : QInv s) (hs : step?
     exact h.clear (m := .exited) (by simp)
   | joinReturn => obtain ⟨_, _, _, rfl⟩ := joinReturn?_some hs; exact h.same rfl rfl rfl rfl
 
+/-! ### join: draining, freeing the channel, the result -/
+
+theorem anyRx_congr {s s' : St} (hn : s'.nw = s.nw)
+    (h : ∀ w, w < s.nw → (s'.main w).holdsRx = (s.main w).holdsRx) : anyRx s' = anyRx s := by
+  rw [Bool.eq_iff_iff, anyRx_iff, anyRx_iff, hn]
+  constructor
+  · rintro ⟨w, hw, hr⟩; exact ⟨w, hw, by rw [← h w hw]; exact hr⟩
+  · rintro ⟨w, hw, hr⟩; exact ⟨w, hw, by rw [h w hw]; exact hr⟩
+
+@[simp] theorem anyRx_gc (s : St) : anyRx (gc s) = anyRx s := anyRx_congr (by simp) (by simp)
+@[simp] theorem anyRx_clearExec (s : St) (w : Nat) : anyRx (clearExec s w) = anyRx s := rfl
+
+def Main.failed : Main → Prop
+  | .dying _ | .dead _ => True
+  | _ => False
+
+structure JInv (s : St) : Prop where
+  /-- a worker leaves its loop only when the sender is gone and the queue is empty -/
+  drained : ∀ w, s.main w = .draining ∨ s.main w = .exited → s.sender = false ∧ s.queue = []
+  /-- once the sender and all receivers are gone, the queue has been dropped -/
+  freedq : s.sender = false → anyRx s = false → s.queue = []
+  qpos : s.queue ≠ [] → 0 < s.nw
+  /-- `join` returns after every worker thread has finished, with the first panic in thread order -/
+  joined : ∀ r, s.joined = some r → s.sender = false ∧ allGone s = true ∧ r = firstDead s
+  /-- sequential mode: a task object is dropped unfinished only when a worker thread panicked -/
+  seqdrop : s.conc = false → ∀ t o, s.stat t = .dropped o → ∃ w, w < s.nw ∧ (s.main w).failed
+
+theorem JInv.init (nw : Nat) (conc : Bool) : JInv (init nw conc) := by
+  constructor <;> simp [Compio.Dispatcher.init]
+
+theorem gone_of_allGone {s : St} (h : allGone s = true) {w : Nat} (hw : w < s.nw) : (s.main w).gone = true :=
+  (allGone_iff s).mp h w hw
+
+/-- events that leave workers, sender, queue and `joined` alone and drop nothing -/
+theorem JInv.same {s s' : St} (h : JInv s) (h1 : s'.main = s.main) (h2 : s'.sender = s.sender)
+    (h3 : s'.queue = s.queue) (h4 : s'.nw = s.nw) (h5 : s'.conc = s.conc) (h6 : s'.joined = s.joined)
+    (h7 : ∀ t o, s'.stat t = .dropped o → ∃ o', s.stat t = .dropped o') : JInv s' := by
+  have hany : anyRx s' = anyRx s := anyRx_congr h4 (by intro w _; rw [h1])
+  have hall : allGone s' = allGone s := by simp [allGone, h1, h4]
+  have hfd : firstDead s' = firstDead s := by simp [firstDead, h1, h4]
+  constructor
+  · intro w; rw [h1, h2, h3]; exact h.drained w
+  · rw [h2, h3, hany]; exact h.freedq
+  · rw [h3, h4]; exact h.qpos
+  · intro r; rw [h6, h2, hall, hfd]; exact h.joined r
+  · rw [h5, h4, h1]; intro hc t o hd
+    obtain ⟨o', hd'⟩ := h7 t o hd
+    exact h.seqdrop hc t o' hd'
+
 end Compio.Dispatcher
